@@ -7,7 +7,7 @@ package trend
 //@ func MovingSum.Compute
 //@ requires m.Period >= 1 && consumed(c) == 0
 //@ ensures[C02] len(result) == max(0, len(c) - m.IdlePeriod())
-//@ ensures[C01] forall k :: 0 <= k && k < len(result) ==> result[k] == psum(c, k + m.Period) - psum(c, k)
+//@ ensures[C01,C18] forall k :: 0 <= k && k < len(result) ==> result[k] == psum(c, k + m.Period) - psum(c, k)
 //@ ensures[C03] consumed(c) == len(c) && closed(result)
 //@ ensures[C04] forall kk :: 0 <= kk && kk < len(result) ==> hor(result, kk) <= hor(c, kk + m.IdlePeriod())
 //@ lit#0 invariant sum == psum(cs[0], calls) - psum(cs[1], calls)
@@ -18,7 +18,7 @@ package trend
 //@ func Sma.Compute
 //@ requires s.Period >= 1 && consumed(c) == 0
 //@ ensures[C02] len(result) == max(0, len(c) - s.IdlePeriod())
-//@ ensures[C01] forall k :: 0 <= k && k < len(result) ==> result[k] == (psum(c, k + s.Period) - psum(c, k)) / s.Period
+//@ ensures[C01,C18] forall k :: 0 <= k && k < len(result) ==> result[k] == (psum(c, k + s.Period) - psum(c, k)) / s.Period
 //@ ensures[C03] consumed(c) == len(c) && closed(result)
 //@ ensures[C04] forall kk :: 0 <= kk && kk < len(result) ==> hor(result, kk) <= hor(c, kk + s.IdlePeriod())
 //@ use psum_window_nonneg(c, _, _)
@@ -28,7 +28,7 @@ package trend
 //@ func Ema.Compute
 //@ requires e.Period >= 1 && consumed(c) == 0
 //@ ensures[C02] len(result) == max(0, len(c) - e.IdlePeriod())
-//@ ensures[C01] forall k :: 0 <= k && k < len(result) ==> result[k] == emaS(c, e.Period, e.Smoothing / (e.Period + 1), k)
+//@ ensures[C01,C18] forall k :: 0 <= k && k < len(result) ==> result[k] == emaS(c, e.Period, e.Smoothing / (e.Period + 1), k)
 //@ ensures[C03] consumed(c) == len(c) && closed(result)
 //@ ensures[C04] forall kk :: 0 <= kk && kk < len(result) ==> hor(result, kk) <= hor(c, kk + e.IdlePeriod())
 //@ loop#0 invariant e.Period <= consumed(c) && sent(result) == consumed(c) - e.Period + 1 && !closed(result)
@@ -42,7 +42,7 @@ package trend
 //@ func Rma.Compute
 //@ requires r.Period >= 1 && consumed(c) == 0
 //@ ensures[C02] len(result) == max(0, len(c) - r.IdlePeriod())
-//@ ensures[C01] forall k :: 0 <= k && k < len(result) ==> result[k] == rmaS(c, r.Period, k)
+//@ ensures[C01,C18] forall k :: 0 <= k && k < len(result) ==> result[k] == rmaS(c, r.Period, k)
 //@ ensures[C03] consumed(c) == len(c) && closed(result)
 //@ ensures[C04] forall kk :: 0 <= kk && kk < len(result) ==> hor(result, kk) <= hor(c, kk + r.IdlePeriod())
 //@ loop#0 invariant r.Period <= consumed(c) && sent(result) == consumed(c) - r.Period + 1 && !closed(result)
@@ -55,7 +55,7 @@ package trend
 //@ func Smma.Compute
 //@ requires s.Period >= 1 && consumed(c) == 0
 //@ ensures[C02] len(result) == max(0, len(c) - s.IdlePeriod())
-//@ ensures[C01] forall k :: 0 <= k && k < len(result) ==> result[k] == rmaS(c, s.Period, k)
+//@ ensures[C01,C18] forall k :: 0 <= k && k < len(result) ==> result[k] == rmaS(c, s.Period, k)
 //@ ensures[C03] consumed(c) == len(c) && closed(result)
 //@ ensures[C04] forall kk :: 0 <= kk && kk < len(result) ==> hor(result, kk) <= hor(c, kk + s.IdlePeriod())
 //@ loop#0 invariant s.Period <= consumed(c) && sent(result) == consumed(c) - s.Period + 1 && !closed(result)
@@ -92,15 +92,15 @@ package trend
 //@ ensures[C03] consumed(p0) == len(p0) && closed(result)
 //@ ensures[C04] forall kk :: 0 <= kk && kk < len(result) ==> hor(result, kk) <= hor(p0, kk + self.IdlePeriod())
 //@ offers[C15] "positivity" posma(self) && (forall j :: 0 <= j && j < len(p0) ==> p0[j] >= 0) ==> (forall k :: 0 <= k && k < len(result) ==> result[k] >= 0)
-//@ offers[C01] "sma-value" istype(self, "trend.Sma") ==> (forall k :: 0 <= k && k < len(result) ==> result[k] == smaS(p0, as(self, "trend.Sma").Period)[k])
-//@ offers[C01] "ema-value" istype(self, "trend.Ema") ==> (forall k :: 0 <= k && k < len(result) ==> result[k] == emaS(p0, as(self, "trend.Ema").Period, as(self, "trend.Ema").Smoothing / (as(self, "trend.Ema").Period + 1), k))
+//@ offers[C01,C18] "sma-value" istype(self, "trend.Sma") ==> (forall k :: 0 <= k && k < len(result) ==> result[k] == smaS(p0, as(self, "trend.Sma").Period)[k])
+//@ offers[C01,C18] "ema-value" istype(self, "trend.Ema") ==> (forall k :: 0 <= k && k < len(result) ==> result[k] == emaS(p0, as(self, "trend.Ema").Period, as(self, "trend.Ema").Smoothing / (as(self, "trend.Ema").Period + 1), k))
 
 //@ func MovingMax.Compute
 //@ requires m.Period >= 1 && consumed(c) == 0
 //@ ensures[C02] len(result) == max(0, len(c) - (m.IdlePeriod()))
 //@ ensures[C03] consumed(c) == len(c) && closed(result)
 //@ ensures[C04] forall kk :: 0 <= kk && kk < len(result) ==> hor(result, kk) <= hor(c, kk + (m.IdlePeriod()))
-//@ ensures[C01,C15] "window-extremum" forall k :: 0 <= k && k < len(result) ==> result[k] == wmaxS(c, k, k + m.Period)
+//@ ensures[C01,C15,C18] "window-extremum" forall k :: 0 <= k && k < len(result) ==> result[k] == wmaxS(c, k, k + m.Period)
 //@ ensures[C15] "bounds-window" forall k, j :: 0 <= k && k < len(result) && k <= j && j < k + m.Period ==> result[k] >= c[j]
 //@ use wmax_ge(c, _, _, _)
 //@ lit#0 invariant count == calls
@@ -118,7 +118,7 @@ package trend
 //@ ensures[C02] len(result) == max(0, len(c) - (m.IdlePeriod()))
 //@ ensures[C03] consumed(c) == len(c) && closed(result)
 //@ ensures[C04] forall kk :: 0 <= kk && kk < len(result) ==> hor(result, kk) <= hor(c, kk + (m.IdlePeriod()))
-//@ ensures[C01,C15] "window-extremum" forall k :: 0 <= k && k < len(result) ==> result[k] == wminS(c, k, k + m.Period)
+//@ ensures[C01,C15,C18] "window-extremum" forall k :: 0 <= k && k < len(result) ==> result[k] == wminS(c, k, k + m.Period)
 //@ ensures[C15] "bounds-window" forall k, j :: 0 <= k && k < len(result) && k <= j && j < k + m.Period ==> result[k] <= c[j]
 //@ use wmin_le(c, _, _, _)
 //@ lit#0 invariant count == calls
@@ -144,7 +144,7 @@ package trend
 //@ loop#0 invariant forall p :: 0 <= p && p < w.Period ==> window.buffer[p] == values[calls + 1 - w.Period + rlpos(window, p)]
 //@ loop#0 invariant sum == wmaW(values, calls + 1 - w.Period, i, w.Period)
 //@ lit#0 yields (calls + 1 >= w.Period ? wmaW(values, calls + 1 - w.Period, w.Period, w.Period) / 2 : 0)
-//@ ensures[C01] "documented" forall k :: 0 <= k && k < len(result) ==> result[k] == wmaS(values, w.Period)[k]
+//@ ensures[C01,C18] "documented" forall k :: 0 <= k && k < len(result) ==> result[k] == wmaS(values, w.Period)[k]
 
 // WMA1 = WMA(period/2, values), WMA2 = WMA(period, values), WMA3 = WMA(sqrt(period), (2 * WMA1) - WMA2), HMA = WMA3,
 // WMA1 and WMA2 taken at the same bar
@@ -156,9 +156,9 @@ package trend
 //@ ensures[C04] forall kk :: 0 <= kk && kk < len(result) ==> hor(result, kk) <= hor(values, kk + (h.IdlePeriod()))
 //@ use wmaW_cong(valuesSplice[0], values, _, h.wma1.Period, h.wma1.Period)
 //@ use wmaW_cong(valuesSplice[1], values, _, h.wma2.Period, h.wma2.Period)
-//@ step[C01] "difference" forall j :: 0 <= j && j < len(res(Subtract, 0)) ==> res(Subtract, 0)[j] == hmaDiffS(values, h.wma1.Period, h.wma2.Period)[j]
+//@ step[C01,C18] "difference" forall j :: 0 <= j && j < len(res(Subtract, 0)) ==> res(Subtract, 0)[j] == hmaDiffS(values, h.wma1.Period, h.wma2.Period)[j]
 //@ use wmaW_cong(res(Subtract, 0), hmaDiffS(values, h.wma1.Period, h.wma2.Period), _, h.wma3.Period, h.wma3.Period)
-//@ ensures[C01] "documented" forall k :: 0 <= k && k < len(result) ==> result[k] == wmaS(hmaDiffS(values, h.wma1.Period, h.wma2.Period), h.wma3.Period)[k]
+//@ ensures[C01,C18] "documented" forall k :: 0 <= k && k < len(result) ==> result[k] == wmaS(hmaDiffS(values, h.wma1.Period, h.wma2.Period), h.wma3.Period)[k]
 
 // DEMA = (2 * EMA1(values)) - EMA2(EMA1(values)), both at the same bar
 //@ stream demaS(c stream, P1 int, m1 real, P2 int, m2 real)[k] = 2 * emaSt(c, P1, m1)[k + P2 - 1] - emaS(emaSt(c, P1, m1), P2, m2, k)
@@ -167,10 +167,10 @@ package trend
 //@ ensures[C02] len(result) == max(0, len(c) - (d.IdlePeriod()))
 //@ ensures[C03] consumed(c) == len(c) && closed(result)
 //@ ensures[C04] forall kk :: 0 <= kk && kk < len(result) ==> hor(result, kk) <= hor(c, kk + (d.IdlePeriod()))
-//@ step[C01] "ema1" forall j :: 0 <= j && j < len(ema1[1]) ==> ema1[0][j] == emaSt(c, d.Ema1.Period, emam(d.Ema1))[j] && ema1[1][j] == emaSt(c, d.Ema1.Period, emam(d.Ema1))[j]
+//@ step[C01,C18] "ema1" forall j :: 0 <= j && j < len(ema1[1]) ==> ema1[0][j] == emaSt(c, d.Ema1.Period, emam(d.Ema1))[j] && ema1[1][j] == emaSt(c, d.Ema1.Period, emam(d.Ema1))[j]
 //@ use ema_cong(ema1[1], emaSt(c, d.Ema1.Period, emam(d.Ema1)), d.Ema2.Period, emam(d.Ema2), _)
-//@ step[C01] "as-implemented" forall k :: 0 <= k && k < len(result) ==> result[k] == 2 * emaSt(c, d.Ema1.Period, emam(d.Ema1))[k] - emaS(emaSt(c, d.Ema1.Period, emam(d.Ema1)), d.Ema2.Period, emam(d.Ema2), k)
-//@ ensures[C01] "as-implemented" forall k :: 0 <= k && k < len(result) ==> result[k] == 2 * emaSt(c, d.Ema1.Period, emam(d.Ema1))[k] - emaS(emaSt(c, d.Ema1.Period, emam(d.Ema1)), d.Ema2.Period, emam(d.Ema2), k)
+//@ step[C01,C18] "as-implemented" forall k :: 0 <= k && k < len(result) ==> result[k] == 2 * emaSt(c, d.Ema1.Period, emam(d.Ema1))[k] - emaS(emaSt(c, d.Ema1.Period, emam(d.Ema1)), d.Ema2.Period, emam(d.Ema2), k)
+//@ ensures[C01,C18] "as-implemented" forall k :: 0 <= k && k < len(result) ==> result[k] == 2 * emaSt(c, d.Ema1.Period, emam(d.Ema1))[k] - emaS(emaSt(c, d.Ema1.Period, emam(d.Ema1)), d.Ema2.Period, emam(d.Ema2), k)
 //@ guarantees[C01] "documented" forall k :: 0 <= k && k < len(result) ==> result[k] == demaS(c, d.Ema1.Period, emam(d.Ema1), d.Ema2.Period, emam(d.Ema2))[k]
 
 // TEMA = (3 * EMA1) - (3 * EMA2) + EMA3, EMA1 = EMA(values), EMA2 = EMA(EMA1), EMA3 = EMA(EMA2), all at the same bar
@@ -180,12 +180,12 @@ package trend
 //@ ensures[C02] len(result) == max(0, len(c) - (t.IdlePeriod()))
 //@ ensures[C03] consumed(c) == len(c) && closed(result)
 //@ ensures[C04] forall kk :: 0 <= kk && kk < len(result) ==> hor(result, kk) <= hor(c, kk + (t.IdlePeriod()))
-//@ step[C01] "ema1" forall j :: 0 <= j && j < len(res(Duplicate, 0)[0]) ==> res(Duplicate, 0)[0][j] == emaSt(c, t.Ema1.Period, emam(t.Ema1))[j] && res(Duplicate, 0)[1][j] == emaSt(c, t.Ema1.Period, emam(t.Ema1))[j]
+//@ step[C01,C18] "ema1" forall j :: 0 <= j && j < len(res(Duplicate, 0)[0]) ==> res(Duplicate, 0)[0][j] == emaSt(c, t.Ema1.Period, emam(t.Ema1))[j] && res(Duplicate, 0)[1][j] == emaSt(c, t.Ema1.Period, emam(t.Ema1))[j]
 //@ use ema_cong(res(Duplicate, 0)[0], emaSt(c, t.Ema1.Period, emam(t.Ema1)), t.Ema2.Period, emam(t.Ema2), _)
-//@ step[C01] "ema2" forall j :: 0 <= j && j < len(res(Duplicate, 1)[0]) ==> res(Duplicate, 1)[0][j] == emaSt(emaSt(c, t.Ema1.Period, emam(t.Ema1)), t.Ema2.Period, emam(t.Ema2))[j] && res(Duplicate, 1)[1][j] == emaSt(emaSt(c, t.Ema1.Period, emam(t.Ema1)), t.Ema2.Period, emam(t.Ema2))[j]
+//@ step[C01,C18] "ema2" forall j :: 0 <= j && j < len(res(Duplicate, 1)[0]) ==> res(Duplicate, 1)[0][j] == emaSt(emaSt(c, t.Ema1.Period, emam(t.Ema1)), t.Ema2.Period, emam(t.Ema2))[j] && res(Duplicate, 1)[1][j] == emaSt(emaSt(c, t.Ema1.Period, emam(t.Ema1)), t.Ema2.Period, emam(t.Ema2))[j]
 //@ use ema_cong(res(Duplicate, 1)[0], emaSt(emaSt(c, t.Ema1.Period, emam(t.Ema1)), t.Ema2.Period, emam(t.Ema2)), t.Ema3.Period, emam(t.Ema3), _)
-//@ step[C01] "formula" forall k :: 0 <= k && k < len(result) ==> result[k] == temaS(c, t.Ema1.Period, emam(t.Ema1), t.Ema2.Period, emam(t.Ema2), t.Ema3.Period, emam(t.Ema3))[k]
-//@ ensures[C01] "documented" forall k :: 0 <= k && k < len(result) ==> result[k] == temaS(c, t.Ema1.Period, emam(t.Ema1), t.Ema2.Period, emam(t.Ema2), t.Ema3.Period, emam(t.Ema3))[k]
+//@ step[C01,C18] "formula" forall k :: 0 <= k && k < len(result) ==> result[k] == temaS(c, t.Ema1.Period, emam(t.Ema1), t.Ema2.Period, emam(t.Ema2), t.Ema3.Period, emam(t.Ema3))[k]
+//@ ensures[C01,C18] "documented" forall k :: 0 <= k && k < len(result) ==> result[k] == temaS(c, t.Ema1.Period, emam(t.Ema1), t.Ema2.Period, emam(t.Ema2), t.Ema3.Period, emam(t.Ema3))[k]
 
 // TRIMA = SMA(period / 2, SMA((period / 2) + 1, values)) for an even period, SMA((period + 1) / 2, SMA((period + 1) / 2, values)) for an odd one
 //@ macro trimaP1(P) = (P % 2 == 0 ? P / 2 : (P + 1) / 2)
@@ -196,12 +196,12 @@ package trend
 //@ ensures[C02] len(result) == max(0, len(c) - (t.IdlePeriod()))
 //@ ensures[C03] consumed(c) == len(c) && closed(result)
 //@ ensures[C04] forall kk :: 0 <= kk && kk < len(result) ==> hor(result, kk) <= hor(c, kk + (t.IdlePeriod()))
-//@ step[C01] "periods" sma1.Period == trimaP1(t.Period) && sma2.Period == trimaP2(t.Period)
-//@ step[C01] "inner" forall j :: 0 <= j && j < len(res(Sma_Compute, 0)) ==> res(Sma_Compute, 0)[j] == smaS(c, sma2.Period)[j]
+//@ step[C01,C18] "periods" sma1.Period == trimaP1(t.Period) && sma2.Period == trimaP2(t.Period)
+//@ step[C01,C18] "inner" forall j :: 0 <= j && j < len(res(Sma_Compute, 0)) ==> res(Sma_Compute, 0)[j] == smaS(c, sma2.Period)[j]
 //@ use psum_cong(res(Sma_Compute, 0), smaS(c, sma2.Period), _)
-//@ step[C01] "outer-even" t.Period % 2 == 0 ==> (forall k :: 0 <= k && k < len(result) ==> result[k] == smaS(smaS(c, t.Period / 2 + 1), t.Period / 2)[k])
-//@ step[C01] "outer-odd" t.Period % 2 != 0 ==> (forall k :: 0 <= k && k < len(result) ==> result[k] == smaS(smaS(c, (t.Period + 1) / 2), (t.Period + 1) / 2)[k])
-//@ ensures[C01] "documented" forall k :: 0 <= k && k < len(result) ==> result[k] == trimaS(c, t.Period)[k]
+//@ step[C01,C18] "outer-even" t.Period % 2 == 0 ==> (forall k :: 0 <= k && k < len(result) ==> result[k] == smaS(smaS(c, t.Period / 2 + 1), t.Period / 2)[k])
+//@ step[C01,C18] "outer-odd" t.Period % 2 != 0 ==> (forall k :: 0 <= k && k < len(result) ==> result[k] == smaS(smaS(c, (t.Period + 1) / 2), (t.Period + 1) / 2)[k])
+//@ ensures[C01,C18] "documented" forall k :: 0 <= k && k < len(result) ==> result[k] == trimaS(c, t.Period)[k]
 
 // EMA1 = EMA(period, values), EMA2 = EMA(period, EMA1), EMA3 = EMA(period, EMA2), TRIX = (EMA3 - Previous EMA3) / Previous EMA3
 //@ stream ema3S(c stream, P int)[k] = emaS(emaSt(emaSt(c, P, 2 / real(P + 1)), P, 2 / real(P + 1)), P, 2 / real(P + 1), k)
@@ -211,12 +211,12 @@ package trend
 //@ ensures[C02] len(result) == max(0, len(c) - (t.IdlePeriod()))
 //@ ensures[C03] consumed(c) == len(c) && closed(result)
 //@ ensures[C04] forall kk :: 0 <= kk && kk < len(result) ==> hor(result, kk) <= hor(c, kk + (t.IdlePeriod()))
-//@ step[C01] "ema1" forall j :: 0 <= j && j < len(res(Ema_Compute, 0)) ==> res(Ema_Compute, 0)[j] == emaSt(c, t.Period, 2 / real(t.Period + 1))[j]
+//@ step[C01,C18] "ema1" forall j :: 0 <= j && j < len(res(Ema_Compute, 0)) ==> res(Ema_Compute, 0)[j] == emaSt(c, t.Period, 2 / real(t.Period + 1))[j]
 //@ use ema_cong(res(Ema_Compute, 0), emaSt(c, t.Period, 2 / real(t.Period + 1)), t.Period, 2 / real(t.Period + 1), _)
-//@ step[C01] "ema2" forall j :: 0 <= j && j < len(res(Ema_Compute, 1)) ==> res(Ema_Compute, 1)[j] == emaSt(emaSt(c, t.Period, 2 / real(t.Period + 1)), t.Period, 2 / real(t.Period + 1))[j]
+//@ step[C01,C18] "ema2" forall j :: 0 <= j && j < len(res(Ema_Compute, 1)) ==> res(Ema_Compute, 1)[j] == emaSt(emaSt(c, t.Period, 2 / real(t.Period + 1)), t.Period, 2 / real(t.Period + 1))[j]
 //@ use ema_cong(res(Ema_Compute, 1), emaSt(emaSt(c, t.Period, 2 / real(t.Period + 1)), t.Period, 2 / real(t.Period + 1)), t.Period, 2 / real(t.Period + 1), _)
-//@ step[C01] "ema3" forall j :: 0 <= j && j < len(res(Ema_Compute, 2)) ==> res(Ema_Compute, 2)[j] == emaS(emaSt(emaSt(c, t.Period, 2 / real(t.Period + 1)), t.Period, 2 / real(t.Period + 1)), t.Period, 2 / real(t.Period + 1), j)
-//@ ensures[C01] "documented" forall k :: 0 <= k && k < len(result) ==> result[k] == trixS(c, t.Period)[k]
+//@ step[C01,C18] "ema3" forall j :: 0 <= j && j < len(res(Ema_Compute, 2)) ==> res(Ema_Compute, 2)[j] == emaS(emaSt(emaSt(c, t.Period, 2 / real(t.Period + 1)), t.Period, 2 / real(t.Period + 1)), t.Period, 2 / real(t.Period + 1), j)
+//@ ensures[C01,C18] "documented" forall k :: 0 <= k && k < len(result) ==> result[k] == trixS(c, t.Period)[k]
 
 // MACD = 12-Period EMA - 26-Period EMA at the same bar; Signal = 9-Period EMA of MACD
 //@ stream macdS(c stream, P1 int, m1 real, P2 int, m2 real)[k] = emaS(c, P1, m1, k + P2 - P1) - emaS(c, P2, m2, k)
@@ -228,10 +228,10 @@ package trend
 //@ ensures[C04] forall kk :: 0 <= kk && kk < len(result1) ==> hor(result1, kk) <= hor(c, kk + (m.IdlePeriod()))
 //@ use ema_cong(snapshots[0], c, m.Ema1.Period, emam(m.Ema1), _)
 //@ use ema_cong(snapshots[1], c, m.Ema2.Period, emam(m.Ema2), _)
-//@ step[C01] "macd-line" forall j :: 0 <= j && j < len(macds[1]) ==> macds[1][j] == macdS(c, m.Ema1.Period, emam(m.Ema1), m.Ema2.Period, emam(m.Ema2))[j]
+//@ step[C01,C18] "macd-line" forall j :: 0 <= j && j < len(macds[1]) ==> macds[1][j] == macdS(c, m.Ema1.Period, emam(m.Ema1), m.Ema2.Period, emam(m.Ema2))[j]
 //@ use ema_cong(macds[1], macdS(c, m.Ema1.Period, emam(m.Ema1), m.Ema2.Period, emam(m.Ema2)), m.Ema3.Period, emam(m.Ema3), _)
-//@ ensures[C01] "macd" forall k :: 0 <= k && k < len(result0) ==> result0[k] == macdS(c, m.Ema1.Period, emam(m.Ema1), m.Ema2.Period, emam(m.Ema2))[k + m.Ema3.Period - 1]
-//@ ensures[C01] "signal" forall k :: 0 <= k && k < len(result1) ==> result1[k] == emaS(macdS(c, m.Ema1.Period, emam(m.Ema1), m.Ema2.Period, emam(m.Ema2)), m.Ema3.Period, emam(m.Ema3), k)
+//@ ensures[C01,C18] "macd" forall k :: 0 <= k && k < len(result0) ==> result0[k] == macdS(c, m.Ema1.Period, emam(m.Ema1), m.Ema2.Period, emam(m.Ema2))[k + m.Ema3.Period - 1]
+//@ ensures[C01,C18] "signal" forall k :: 0 <= k && k < len(result1) ==> result1[k] == emaS(macdS(c, m.Ema1.Period, emam(m.Ema1), m.Ema2.Period, emam(m.Ema2)), m.Ema3.Period, emam(m.Ema3), k)
 
 // Apo has no IdlePeriod method; its formula (fast EMA - slow EMA) implies SlowPeriod-1
 // APO = Fast - Slow, Fast = Ema(values, fastPeriod), Slow = Ema(values, slowPeriod), both at the same bar
@@ -243,8 +243,8 @@ package trend
 //@ ensures[C04] forall kk :: 0 <= kk && kk < len(result) ==> hor(result, kk) <= hor(c, kk + (apo.SlowPeriod - 1))
 //@ use ema_cong(res(Duplicate, 0)[0], c, apo.FastPeriod, 2 / real(apo.FastPeriod + 1), _)
 //@ use ema_cong(res(Duplicate, 0)[1], c, apo.SlowPeriod, 2 / real(apo.SlowPeriod + 1), _)
-//@ step[C01] "as-implemented" forall k :: 0 <= k && k < len(result) ==> result[k] == emaS(c, apo.FastPeriod, 2 / real(apo.FastPeriod + 1), k) - emaS(c, apo.SlowPeriod, 2 / real(apo.SlowPeriod + 1), k)
-//@ ensures[C01] "as-implemented" forall k :: 0 <= k && k < len(result) ==> result[k] == emaS(c, apo.FastPeriod, 2 / real(apo.FastPeriod + 1), k) - emaS(c, apo.SlowPeriod, 2 / real(apo.SlowPeriod + 1), k)
+//@ step[C01,C18] "as-implemented" forall k :: 0 <= k && k < len(result) ==> result[k] == emaS(c, apo.FastPeriod, 2 / real(apo.FastPeriod + 1), k) - emaS(c, apo.SlowPeriod, 2 / real(apo.SlowPeriod + 1), k)
+//@ ensures[C01,C18] "as-implemented" forall k :: 0 <= k && k < len(result) ==> result[k] == emaS(c, apo.FastPeriod, 2 / real(apo.FastPeriod + 1), k) - emaS(c, apo.SlowPeriod, 2 / real(apo.SlowPeriod + 1), k)
 //@ guarantees[C01] "documented" forall k :: 0 <= k && k < len(result) ==> result[k] == apoS(c, apo.FastPeriod, apo.SlowPeriod)[k]
 
 // Single EMA = EMA(9, Highs - Lows), Double EMA = EMA(9, Single EMA), Ratio = Single EMA / Double EMA (same bar),
@@ -255,13 +255,13 @@ package trend
 //@ ensures[C02] len(result) == max(0, len(highs) - (m.IdlePeriod()))
 //@ ensures[C03] consumed(highs) == len(highs) && consumed(lows) == len(lows) && closed(result)
 //@ ensures[C04] forall kk :: 0 <= kk && kk < len(result) ==> hor(result, kk) <= max(hor(highs, kk + (m.IdlePeriod())), hor(lows, kk + (m.IdlePeriod())))
-//@ step[C01] "range" forall j :: 0 <= j && j < len(highs) ==> res(Subtract, 0)[j] == subS(highs, lows)[j]
+//@ step[C01,C18] "range" forall j :: 0 <= j && j < len(highs) ==> res(Subtract, 0)[j] == subS(highs, lows)[j]
 //@ use ema_cong(res(Subtract, 0), subS(highs, lows), m.Ema1.Period, emam(m.Ema1), _)
-//@ step[C01] "single" forall j :: 0 <= j && j < len(ema1[0]) ==> ema1[0][j] == emaSt(subS(highs, lows), m.Ema1.Period, emam(m.Ema1))[j] && res(Duplicate, 0)[1][j] == emaSt(subS(highs, lows), m.Ema1.Period, emam(m.Ema1))[j]
+//@ step[C01,C18] "single" forall j :: 0 <= j && j < len(ema1[0]) ==> ema1[0][j] == emaSt(subS(highs, lows), m.Ema1.Period, emam(m.Ema1))[j] && res(Duplicate, 0)[1][j] == emaSt(subS(highs, lows), m.Ema1.Period, emam(m.Ema1))[j]
 //@ use ema_cong(ema1[0], emaSt(subS(highs, lows), m.Ema1.Period, emam(m.Ema1)), m.Ema2.Period, emam(m.Ema2), _)
-//@ step[C01] "ratio" forall j :: 0 <= j && j < len(ratio) ==> ratio[j] == miRatioS(highs, lows, m.Ema1.Period, emam(m.Ema1), m.Ema2.Period, emam(m.Ema2))[j]
+//@ step[C01,C18] "ratio" forall j :: 0 <= j && j < len(ratio) ==> ratio[j] == miRatioS(highs, lows, m.Ema1.Period, emam(m.Ema1), m.Ema2.Period, emam(m.Ema2))[j]
 //@ use psum_cong(ratio, miRatioS(highs, lows, m.Ema1.Period, emam(m.Ema1), m.Ema2.Period, emam(m.Ema2)), _)
-//@ ensures[C01] "documented" forall k :: 0 <= k && k < len(result) ==> result[k] == psum(miRatioS(highs, lows, m.Ema1.Period, emam(m.Ema1), m.Ema2.Period, emam(m.Ema2)), k + m.MovingSum.Period) - psum(miRatioS(highs, lows, m.Ema1.Period, emam(m.Ema1), m.Ema2.Period, emam(m.Ema2)), k)
+//@ ensures[C01,C18] "documented" forall k :: 0 <= k && k < len(result) ==> result[k] == psum(miRatioS(highs, lows, m.Ema1.Period, emam(m.Ema1), m.Ema2.Period, emam(m.Ema2)), k + m.MovingSum.Period) - psum(miRatioS(highs, lows, m.Ema1.Period, emam(m.Ema1), m.Ema2.Period, emam(m.Ema2)), k)
 
 // m = (period * sumXY - sumX * sumY) / (period * sumX2 - sumX * sumX), b = (sumY - m * sumX) / period, sums over the window
 //@ stream mlsMS(x stream, y stream, P int)[k] = (winS(mulS(x, y), P)[k] * P - winS(x, P)[k] * winS(y, P)[k]) / (winS(sqS(x), P)[k] * P - winS(x, P)[k] * winS(x, P)[k])
@@ -272,18 +272,18 @@ package trend
 //@ ensures[C03] consumed(x) == len(x) && consumed(y) == len(y) && closed(result0) && closed(result1)
 //@ ensures[C04] forall kk :: 0 <= kk && kk < len(result0) ==> hor(result0, kk) <= max(hor(x, kk + (m.IdlePeriod())), hor(y, kk + (m.IdlePeriod())))
 //@ ensures[C04] forall kk :: 0 <= kk && kk < len(result1) ==> hor(result1, kk) <= max(hor(x, kk + (m.IdlePeriod())), hor(y, kk + (m.IdlePeriod())))
-//@ step[C01] "products" forall j :: 0 <= j && j < len(x) ==> res(Operate, 0)[j] == mulS(x, y)[j] && res(Pow, 0)[j] == sqS(x)[j]
+//@ step[C01,C18] "products" forall j :: 0 <= j && j < len(x) ==> res(Operate, 0)[j] == mulS(x, y)[j] && res(Pow, 0)[j] == sqS(x)[j]
 //@ use psum_cong(res(Operate, 0), mulS(x, y), _)
 //@ use psum_cong(res(Pow, 0), sqS(x), _)
 //@ use psum_cong(xSplice[1], x, _)
 //@ use psum_cong(ySplice[1], y, _)
-//@ step[C01] "sums" forall k :: 0 <= k && k < len(result0) ==> sumXY[k] == winS(mulS(x, y), m.Sum.Period)[k] && sumXSplice[0][k] == winS(x, m.Sum.Period)[k] && sumXSplice[1][k] == winS(x, m.Sum.Period)[k] && sumXSplice[2][k] == winS(x, m.Sum.Period)[k] && sumXSplice[3][k] == winS(x, m.Sum.Period)[k] && sumYSplice[0][k] == winS(y, m.Sum.Period)[k] && sumYSplice[1][k] == winS(y, m.Sum.Period)[k] && sumX2[k] == winS(sqS(x), m.Sum.Period)[k]
-//@ step[C01] "slope" forall k :: 0 <= k && k < len(result0) ==> result0[k] == mlsMS(x, y, m.Sum.Period)[k]
-//@ step[C01] "slope-copy" forall k :: 0 <= k && k < len(result0) ==> mSplice[1][k] == mlsMS(x, y, m.Sum.Period)[k]
-//@ step[C01] "lengths" len(result1) == len(result0) && len(res(Subtract, 2)) == len(result0) && len(res(Multiply, 2)) == len(result0)
-//@ step[C01] "intercept-parts" forall k :: 0 <= k && k < len(result0) ==> res(Multiply, 2)[k] == mlsMS(x, y, m.Sum.Period)[k] * winS(x, m.Sum.Period)[k] && res(Subtract, 2)[k] == winS(y, m.Sum.Period)[k] - mlsMS(x, y, m.Sum.Period)[k] * winS(x, m.Sum.Period)[k]
-//@ step[C01] "intercept" forall k :: 0 <= k && k < len(result1) ==> result1[k] == mlsBS(x, y, m.Sum.Period)[k]
-//@ ensures[C01] "documented" forall k :: 0 <= k && k < len(result0) ==> result0[k] == mlsMS(x, y, m.Sum.Period)[k] && result1[k] == mlsBS(x, y, m.Sum.Period)[k]
+//@ step[C01,C18] "sums" forall k :: 0 <= k && k < len(result0) ==> sumXY[k] == winS(mulS(x, y), m.Sum.Period)[k] && sumXSplice[0][k] == winS(x, m.Sum.Period)[k] && sumXSplice[1][k] == winS(x, m.Sum.Period)[k] && sumXSplice[2][k] == winS(x, m.Sum.Period)[k] && sumXSplice[3][k] == winS(x, m.Sum.Period)[k] && sumYSplice[0][k] == winS(y, m.Sum.Period)[k] && sumYSplice[1][k] == winS(y, m.Sum.Period)[k] && sumX2[k] == winS(sqS(x), m.Sum.Period)[k]
+//@ step[C01,C18] "slope" forall k :: 0 <= k && k < len(result0) ==> result0[k] == mlsMS(x, y, m.Sum.Period)[k]
+//@ step[C01,C18] "slope-copy" forall k :: 0 <= k && k < len(result0) ==> mSplice[1][k] == mlsMS(x, y, m.Sum.Period)[k]
+//@ step[C01,C18] "lengths" len(result1) == len(result0) && len(res(Subtract, 2)) == len(result0) && len(res(Multiply, 2)) == len(result0)
+//@ step[C01,C18] "intercept-parts" forall k :: 0 <= k && k < len(result0) ==> res(Multiply, 2)[k] == mlsMS(x, y, m.Sum.Period)[k] * winS(x, m.Sum.Period)[k] && res(Subtract, 2)[k] == winS(y, m.Sum.Period)[k] - mlsMS(x, y, m.Sum.Period)[k] * winS(x, m.Sum.Period)[k]
+//@ step[C01,C18] "intercept" forall k :: 0 <= k && k < len(result1) ==> result1[k] == mlsBS(x, y, m.Sum.Period)[k]
+//@ ensures[C01,C18] "documented" forall k :: 0 <= k && k < len(result0) ==> result0[k] == mlsMS(x, y, m.Sum.Period)[k] && result1[k] == mlsBS(x, y, m.Sum.Period)[k]
 
 // y = mx + b with m, b the moving least squares slope and intercept of the window ending at the bar
 //@ func Mlr.Compute
@@ -294,8 +294,8 @@ package trend
 //@ use psum_cong(xSplice[0], x, _)
 //@ use psum_cong(mulS(xSplice[0], y), mulS(x, y), _)
 //@ use psum_cong(sqS(xSplice[0]), sqS(x), _)
-//@ step[C01] "line" forall k :: 0 <= k && k < len(result) ==> ms[k] == mlsMS(x, y, m.Mls.Sum.Period)[k] && bs[k] == mlsBS(x, y, m.Mls.Sum.Period)[k]
-//@ ensures[C01] "documented" forall k :: 0 <= k && k < len(result) ==> result[k] == mlsMS(x, y, m.Mls.Sum.Period)[k] * x[k + m.Mls.Sum.Period - 1] + mlsBS(x, y, m.Mls.Sum.Period)[k]
+//@ step[C01,C18] "line" forall k :: 0 <= k && k < len(result) ==> ms[k] == mlsMS(x, y, m.Mls.Sum.Period)[k] && bs[k] == mlsBS(x, y, m.Mls.Sum.Period)[k]
+//@ ensures[C01,C18] "documented" forall k :: 0 <= k && k < len(result) ==> result[k] == mlsMS(x, y, m.Mls.Sum.Period)[k] * x[k + m.Mls.Sum.Period - 1] + mlsBS(x, y, m.Mls.Sum.Period)[k]
 
 // PCDS = Ema(13, Ema(25, (Current - Prior))), APCDS = Ema(13, Ema(25, Abs(Current - Prior))), TSI = (PCDS / APCDS) * 100
 //@ stream pcS(c stream)[j] = c[j+1] - c[j]
@@ -307,27 +307,27 @@ package trend
 //@ ensures[C03] consumed(closings) == len(closings) && closed(result)
 //@ ensures[C04] forall kk :: 0 <= kk && kk < len(result) ==> hor(result, kk) <= hor(closings, kk + (t.IdlePeriod()))
 //@ import "ema-value"
-//@ step[C01] "changes" forall j :: 0 <= j && j < len(closings) - 1 ==> pcsSplice[0][j] == pcS(closings)[j] && res(Abs, 0)[j] == apcS(closings)[j]
+//@ step[C01,C18] "changes" forall j :: 0 <= j && j < len(closings) - 1 ==> pcsSplice[0][j] == pcS(closings)[j] && res(Abs, 0)[j] == apcS(closings)[j]
 //@ use[cond] ema_cong(pcsSplice[0], pcS(closings), as(t.SecondSmoothing, "trend.Ema").Period, emam(as(t.SecondSmoothing, "trend.Ema")), _)
 //@ use[cond] ema_cong(res(Abs, 0), apcS(closings), as(t.SecondSmoothing, "trend.Ema").Period, emam(as(t.SecondSmoothing, "trend.Ema")), _)
-//@ step[C01] "inner" istype(t.FirstSmoothing, "trend.Ema") && istype(t.SecondSmoothing, "trend.Ema") && as(t.FirstSmoothing, "trend.Ema").Period >= 1 && as(t.SecondSmoothing, "trend.Ema").Period >= 1 ==> (forall j :: 0 <= j && j < len(res(Ma_Compute, 0)) ==> res(Ma_Compute, 0)[j] == emaSt(pcS(closings), as(t.SecondSmoothing, "trend.Ema").Period, emam(as(t.SecondSmoothing, "trend.Ema")))[j] && res(Ma_Compute, 2)[j] == emaSt(apcS(closings), as(t.SecondSmoothing, "trend.Ema").Period, emam(as(t.SecondSmoothing, "trend.Ema")))[j])
+//@ step[C01,C18] "inner" istype(t.FirstSmoothing, "trend.Ema") && istype(t.SecondSmoothing, "trend.Ema") && as(t.FirstSmoothing, "trend.Ema").Period >= 1 && as(t.SecondSmoothing, "trend.Ema").Period >= 1 ==> (forall j :: 0 <= j && j < len(res(Ma_Compute, 0)) ==> res(Ma_Compute, 0)[j] == emaSt(pcS(closings), as(t.SecondSmoothing, "trend.Ema").Period, emam(as(t.SecondSmoothing, "trend.Ema")))[j] && res(Ma_Compute, 2)[j] == emaSt(apcS(closings), as(t.SecondSmoothing, "trend.Ema").Period, emam(as(t.SecondSmoothing, "trend.Ema")))[j])
 //@ use[cond] ema_cong(res(Ma_Compute, 0), emaSt(pcS(closings), as(t.SecondSmoothing, "trend.Ema").Period, emam(as(t.SecondSmoothing, "trend.Ema"))), as(t.FirstSmoothing, "trend.Ema").Period, emam(as(t.FirstSmoothing, "trend.Ema")), _)
 //@ use[cond] ema_cong(res(Ma_Compute, 2), emaSt(apcS(closings), as(t.SecondSmoothing, "trend.Ema").Period, emam(as(t.SecondSmoothing, "trend.Ema"))), as(t.FirstSmoothing, "trend.Ema").Period, emam(as(t.FirstSmoothing, "trend.Ema")), _)
-//@ ensures[C01] "documented-ema" istype(t.FirstSmoothing, "trend.Ema") && istype(t.SecondSmoothing, "trend.Ema") && as(t.FirstSmoothing, "trend.Ema").Period >= 1 && as(t.SecondSmoothing, "trend.Ema").Period >= 1 ==> (forall k :: 0 <= k && k < len(result) ==> result[k] == tsiS(closings, as(t.FirstSmoothing, "trend.Ema").Period, emam(as(t.FirstSmoothing, "trend.Ema")), as(t.SecondSmoothing, "trend.Ema").Period, emam(as(t.SecondSmoothing, "trend.Ema")))[k])
+//@ ensures[C01,C18] "documented-ema" istype(t.FirstSmoothing, "trend.Ema") && istype(t.SecondSmoothing, "trend.Ema") && as(t.FirstSmoothing, "trend.Ema").Period >= 1 && as(t.SecondSmoothing, "trend.Ema").Period >= 1 ==> (forall k :: 0 <= k && k < len(result) ==> result[k] == tsiS(closings, as(t.FirstSmoothing, "trend.Ema").Period, emam(as(t.FirstSmoothing, "trend.Ema")), as(t.SecondSmoothing, "trend.Ema").Period, emam(as(t.SecondSmoothing, "trend.Ema")))[k])
 
 //@ func TypicalPrice.Compute
 //@ requires consumed(high) == 0 && consumed(low) == 0 && consumed(closing) == 0 && len(high) == len(low) && len(high) == len(closing)
 //@ ensures[C02] len(result) == max(0, len(high) - (0))
 //@ ensures[C03] consumed(high) == len(high) && consumed(low) == len(low) && consumed(closing) == len(closing) && closed(result)
 //@ ensures[C04] forall kk :: 0 <= kk && kk < len(result) ==> hor(result, kk) <= max(hor(high, kk + (0)), max(hor(low, kk + (0)), hor(closing, kk + (0))))
-//@ ensures[C01] forall k :: 0 <= k && k < len(result) ==> result[k] == (high[k] + low[k] + closing[k]) / 3
+//@ ensures[C01,C18] forall k :: 0 <= k && k < len(result) ==> result[k] == (high[k] + low[k] + closing[k]) / 3
 
 //@ func WeightedClose.Compute
 //@ requires consumed(highs) == 0 && consumed(lows) == 0 && consumed(closes) == 0 && len(highs) == len(lows) && len(highs) == len(closes)
 //@ ensures[C02] len(result) == max(0, len(highs) - (0))
 //@ ensures[C03] consumed(highs) == len(highs) && consumed(lows) == len(lows) && consumed(closes) == len(closes) && closed(result)
 //@ ensures[C04] forall kk :: 0 <= kk && kk < len(result) ==> hor(result, kk) <= max(hor(highs, kk + (0)), max(hor(lows, kk + (0)), hor(closes, kk + (0))))
-//@ ensures[C01] forall k :: 0 <= k && k < len(result) ==> result[k] == (highs[k] + lows[k] + closes[k] * 2) / 4
+//@ ensures[C01,C18] forall k :: 0 <= k && k < len(result) ==> result[k] == (highs[k] + lows[k] + closes[k] * 2) / 4
 
 // VWMA = Sum(Price * Volume) / Sum(Volume) over the last Period bars
 //@ stream vwmaS(c stream, v stream, P int)[k] = (psum(mulS(c, v), k + P) - psum(mulS(c, v), k)) / (psum(v, k + P) - psum(v, k))
@@ -336,10 +336,10 @@ package trend
 //@ ensures[C02] len(result) == max(0, len(closing) - (v.IdlePeriod()))
 //@ ensures[C03] consumed(closing) == len(closing) && consumed(volume) == len(volume) && closed(result)
 //@ ensures[C04] forall kk :: 0 <= kk && kk < len(result) ==> hor(result, kk) <= max(hor(closing, kk + (v.IdlePeriod())), hor(volume, kk + (v.IdlePeriod())))
-//@ step[C01] "products" forall j :: 0 <= j && j < len(closing) ==> res(Multiply, 0)[j] == mulS(closing, volume)[j]
+//@ step[C01,C18] "products" forall j :: 0 <= j && j < len(closing) ==> res(Multiply, 0)[j] == mulS(closing, volume)[j]
 //@ use psum_cong(res(Multiply, 0), mulS(closing, volume), _)
 //@ use psum_cong(volumes[1], volume, _)
-//@ ensures[C01] "documented" forall k :: 0 <= k && k < len(result) ==> result[k] == vwmaS(closing, volume, v.Period)[k]
+//@ ensures[C01,C18] "documented" forall k :: 0 <= k && k < len(result) ==> result[k] == vwmaS(closing, volume, v.Period)[k]
 
 // Aroon has no IdlePeriod method; the moving max/min over Period values implies Period-1
 // documented: Aroon Up = ((P - periods since the P-period high) / P) * 100, Aroon Down likewise with the low.
@@ -363,8 +363,8 @@ package trend
 //@ guarantees[C15] "down-at-least-0" forall k :: 0 <= k && k < len(result1) ==> 0 <= result1[k]
 //@ use since_cong(res(MovingMax_Compute, 0), wmaxSt(high, a.Period), _)
 //@ use since_cong(res(MovingMin_Compute, 0), wminSt(low, a.Period), _)
-//@ step[C01,C15] "as-implemented" forall k :: 0 <= k && k < len(result0) ==> result0[k] == round(real(a.Period - since(wmaxSt(high, a.Period), k)) / a.Period * 100) && result1[k] == round(real(a.Period - since(wminSt(low, a.Period), k)) / a.Period * 100)
-//@ ensures[C01] "as-implemented" forall k :: 0 <= k && k < len(result0) ==> result0[k] == round(real(a.Period - since(wmaxSt(high, a.Period), k)) / a.Period * 100) && result1[k] == round(real(a.Period - since(wminSt(low, a.Period), k)) / a.Period * 100)
+//@ step[C01,C15,C18] "as-implemented" forall k :: 0 <= k && k < len(result0) ==> result0[k] == round(real(a.Period - since(wmaxSt(high, a.Period), k)) / a.Period * 100) && result1[k] == round(real(a.Period - since(wminSt(low, a.Period), k)) / a.Period * 100)
+//@ ensures[C01,C18] "as-implemented" forall k :: 0 <= k && k < len(result0) ==> result0[k] == round(real(a.Period - since(wmaxSt(high, a.Period), k)) / a.Period * 100) && result1[k] == round(real(a.Period - since(wminSt(low, a.Period), k)) / a.Period * 100)
 //@ use since_nonneg(wmaxSt(high, a.Period), _)
 //@ use since_nonneg(wminSt(low, a.Period), _)
 //@ use aroon_upper(a.Period, _)
@@ -375,7 +375,7 @@ package trend
 //@ ensures[C02] len(result) == max(0, len(opening) - (0))
 //@ ensures[C03] consumed(opening) == len(opening) && consumed(high) == len(high) && consumed(low) == len(low) && consumed(closing) == len(closing) && closed(result)
 //@ ensures[C04] forall kk :: 0 <= kk && kk < len(result) ==> hor(result, kk) <= max(hor(opening, kk + (0)), max(hor(high, kk + (0)), max(hor(low, kk + (0)), hor(closing, kk + (0)))))
-//@ ensures[C01] forall k :: 0 <= k && k < len(result) ==> result[k] == (closing[k] - opening[k]) / (high[k] - low[k])
+//@ ensures[C01,C18] forall k :: 0 <= k && k < len(result) ==> result[k] == (closing[k] - opening[k]) / (high[k] - low[k])
 //@ ensures[C15] "range" forall k :: 0 <= k && k < len(result) && low[k] <= opening[k] && opening[k] <= high[k] && low[k] <= closing[k] && closing[k] <= high[k] && low[k] < high[k] ==> 0 - 1 <= result[k] && result[k] <= 1
 
 // Moving Average = Sma(Period, Typical Price); Mean Deviation = Sma(Period, Abs(Typical Price - Moving Average));
@@ -388,14 +388,14 @@ package trend
 //@ ensures[C02] len(result) == max(0, len(highs) - (c.IdlePeriod()))
 //@ ensures[C03] consumed(highs) == len(highs) && consumed(lows) == len(lows) && consumed(closings) == len(closings) && closed(result)
 //@ ensures[C04] forall kk :: 0 <= kk && kk < len(result) ==> hor(result, kk) <= max(hor(highs, kk + (c.IdlePeriod())), max(hor(lows, kk + (c.IdlePeriod())), hor(closings, kk + (c.IdlePeriod()))))
-//@ step[C01] "typical" forall j :: 0 <= j && j < len(highs) ==> res(Duplicate, 0)[0][j] == tpS(highs, lows, closings)[j] && res(Duplicate, 0)[1][j] == tpS(highs, lows, closings)[j] && res(Duplicate, 0)[2][j] == tpS(highs, lows, closings)[j]
+//@ step[C01,C18] "typical" forall j :: 0 <= j && j < len(highs) ==> res(Duplicate, 0)[0][j] == tpS(highs, lows, closings)[j] && res(Duplicate, 0)[1][j] == tpS(highs, lows, closings)[j] && res(Duplicate, 0)[2][j] == tpS(highs, lows, closings)[j]
 //@ use psum_cong(res(Duplicate, 0)[0], tpS(highs, lows, closings), _)
-//@ step[C01] "average" forall j :: 0 <= j && j < len(mas[0]) ==> mas[0][j] == smaS(tpS(highs, lows, closings), c.Period)[j] && res(Duplicate, 1)[1][j] == smaS(tpS(highs, lows, closings), c.Period)[j]
-//@ step[C01] "deviation" forall j :: 0 <= j && j < len(res(Abs, 0)) ==> res(Abs, 0)[j] == cciDevS(highs, lows, closings, c.Period)[j]
+//@ step[C01,C18] "average" forall j :: 0 <= j && j < len(mas[0]) ==> mas[0][j] == smaS(tpS(highs, lows, closings), c.Period)[j] && res(Duplicate, 1)[1][j] == smaS(tpS(highs, lows, closings), c.Period)[j]
+//@ step[C01,C18] "deviation" forall j :: 0 <= j && j < len(res(Abs, 0)) ==> res(Abs, 0)[j] == cciDevS(highs, lows, closings, c.Period)[j]
 //@ use psum_cong(res(Abs, 0), cciDevS(highs, lows, closings, c.Period), _)
-//@ step[C01] "mean-deviation" forall k :: 0 <= k && k < len(md) ==> md[k] == smaS(cciDevS(highs, lows, closings, c.Period), c.Period)[k]
-//@ step[C01] "aligned" forall k :: 0 <= k && k < len(result) ==> tps[2][k] == tpS(highs, lows, closings)[k + 2 * c.Period - 2] && mas[1][k] == smaS(tpS(highs, lows, closings), c.Period)[k + c.Period - 1]
-//@ ensures[C01] "documented" forall k :: 0 <= k && k < len(result) ==> result[k] == cciS(highs, lows, closings, c.Period)[k]
+//@ step[C01,C18] "mean-deviation" forall k :: 0 <= k && k < len(md) ==> md[k] == smaS(cciDevS(highs, lows, closings, c.Period), c.Period)[k]
+//@ step[C01,C18] "aligned" forall k :: 0 <= k && k < len(result) ==> tps[2][k] == tpS(highs, lows, closings)[k + 2 * c.Period - 2] && mas[1][k] == smaS(tpS(highs, lows, closings), c.Period)[k + c.Period - 1]
+//@ ensures[C01,C18] "documented" forall k :: 0 <= k && k < len(result) ==> result[k] == cciS(highs, lows, closings, c.Period)[k]
 
 //@ func Envelope.Compute
 //@ requires consumed(closings) == 0
@@ -405,9 +405,9 @@ package trend
 //@ ensures[C04] forall kk :: 0 <= kk && kk < len(result1) ==> hor(result1, kk) <= hor(closings, kk + (e.IdlePeriod()))
 //@ ensures[C04] forall kk :: 0 <= kk && kk < len(result2) ==> hor(result2, kk) <= hor(closings, kk + (e.IdlePeriod()))
 //@ import "positivity", "sma-value", "ema-value"
-//@ ensures[C01] "bands" forall k :: 0 <= k && k < len(result1) ==> result0[k] == result1[k] * (1 + e.Percentage / 100) && result2[k] == result1[k] * (1 - e.Percentage / 100)
-//@ ensures[C01] "middle-sma" istype(e.Ma, "trend.Sma") ==> (forall k :: 0 <= k && k < len(result1) ==> result1[k] == smaS(closings, as(e.Ma, "trend.Sma").Period)[k])
-//@ ensures[C01] "middle-ema" istype(e.Ma, "trend.Ema") ==> (forall k :: 0 <= k && k < len(result1) ==> result1[k] == emaS(closings, as(e.Ma, "trend.Ema").Period, as(e.Ma, "trend.Ema").Smoothing / (as(e.Ma, "trend.Ema").Period + 1), k))
+//@ ensures[C01,C18] "bands" forall k :: 0 <= k && k < len(result1) ==> result0[k] == result1[k] * (1 + e.Percentage / 100) && result2[k] == result1[k] * (1 - e.Percentage / 100)
+//@ ensures[C01,C18] "middle-sma" istype(e.Ma, "trend.Sma") ==> (forall k :: 0 <= k && k < len(result1) ==> result1[k] == smaS(closings, as(e.Ma, "trend.Sma").Period)[k])
+//@ ensures[C01,C18] "middle-ema" istype(e.Ma, "trend.Ema") ==> (forall k :: 0 <= k && k < len(result1) ==> result1[k] == emaS(closings, as(e.Ma, "trend.Ema").Period, as(e.Ma, "trend.Ema").Smoothing / (as(e.Ma, "trend.Ema").Period + 1), k))
 //@ ensures[C15] "ordered" posma(e.Ma) && e.Percentage >= 0 && (forall j :: 0 <= j && j < len(closings) ==> closings[j] >= 0) ==> (forall k :: 0 <= k && k < len(result1) ==> result0[k] >= result1[k] && result1[k] >= result2[k])
 
 // RSV = ((Closing - Min(Low, rPeriod)) / (Max(High, rPeriod) - Min(Low, rPeriod))) * 100 (= stochKS),
@@ -419,12 +419,12 @@ package trend
 //@ ensures[C04] forall kk :: 0 <= kk && kk < len(result0) ==> hor(result0, kk) <= max(hor(high, kk + (kdj.IdlePeriod())), max(hor(low, kk + (kdj.IdlePeriod())), hor(closing, kk + (kdj.IdlePeriod()))))
 //@ ensures[C04] forall kk :: 0 <= kk && kk < len(result1) ==> hor(result1, kk) <= max(hor(high, kk + (kdj.IdlePeriod())), max(hor(low, kk + (kdj.IdlePeriod())), hor(closing, kk + (kdj.IdlePeriod()))))
 //@ ensures[C04] forall kk :: 0 <= kk && kk < len(result2) ==> hor(result2, kk) <= max(hor(high, kk + (kdj.IdlePeriod())), max(hor(low, kk + (kdj.IdlePeriod())), hor(closing, kk + (kdj.IdlePeriod()))))
-//@ step[C01] "rsv" forall j :: 0 <= j && j < len(rsv) ==> rsv[j] == stochKS(high, low, closing, kdj.MovingMax.Period)[j]
+//@ step[C01,C18] "rsv" forall j :: 0 <= j && j < len(rsv) ==> rsv[j] == stochKS(high, low, closing, kdj.MovingMax.Period)[j]
 //@ use psum_cong(rsv, stochKS(high, low, closing, kdj.MovingMax.Period), _)
-//@ step[C01] "k" forall j :: 0 <= j && j < len(ks[0]) ==> ks[0][j] == smaS(stochKS(high, low, closing, kdj.MovingMax.Period), kdj.Sma1.Period)[j] && res(Duplicate, 1)[1][j] == smaS(stochKS(high, low, closing, kdj.MovingMax.Period), kdj.Sma1.Period)[j] && res(Duplicate, 1)[2][j] == smaS(stochKS(high, low, closing, kdj.MovingMax.Period), kdj.Sma1.Period)[j]
+//@ step[C01,C18] "k" forall j :: 0 <= j && j < len(ks[0]) ==> ks[0][j] == smaS(stochKS(high, low, closing, kdj.MovingMax.Period), kdj.Sma1.Period)[j] && res(Duplicate, 1)[1][j] == smaS(stochKS(high, low, closing, kdj.MovingMax.Period), kdj.Sma1.Period)[j] && res(Duplicate, 1)[2][j] == smaS(stochKS(high, low, closing, kdj.MovingMax.Period), kdj.Sma1.Period)[j]
 //@ use psum_cong(ks[0], smaS(stochKS(high, low, closing, kdj.MovingMax.Period), kdj.Sma1.Period), _)
-//@ step[C01] "d" forall j :: 0 <= j && j < len(ds[0]) ==> ds[0][j] == smaS(smaS(stochKS(high, low, closing, kdj.MovingMax.Period), kdj.Sma1.Period), kdj.Sma2.Period)[j] && ds[1][j] == smaS(smaS(stochKS(high, low, closing, kdj.MovingMax.Period), kdj.Sma1.Period), kdj.Sma2.Period)[j]
-//@ ensures[C01] "documented" forall k :: 0 <= k && k < len(result0) ==> result0[k] == smaS(stochKS(high, low, closing, kdj.MovingMax.Period), kdj.Sma1.Period)[k + kdj.Sma2.Period - 1] && result1[k] == smaS(smaS(stochKS(high, low, closing, kdj.MovingMax.Period), kdj.Sma1.Period), kdj.Sma2.Period)[k] && result2[k] == 3 * smaS(stochKS(high, low, closing, kdj.MovingMax.Period), kdj.Sma1.Period)[k + kdj.Sma2.Period - 1] - 2 * smaS(smaS(stochKS(high, low, closing, kdj.MovingMax.Period), kdj.Sma1.Period), kdj.Sma2.Period)[k]
+//@ step[C01,C18] "d" forall j :: 0 <= j && j < len(ds[0]) ==> ds[0][j] == smaS(smaS(stochKS(high, low, closing, kdj.MovingMax.Period), kdj.Sma1.Period), kdj.Sma2.Period)[j] && ds[1][j] == smaS(smaS(stochKS(high, low, closing, kdj.MovingMax.Period), kdj.Sma1.Period), kdj.Sma2.Period)[j]
+//@ ensures[C01,C18] "documented" forall k :: 0 <= k && k < len(result0) ==> result0[k] == smaS(stochKS(high, low, closing, kdj.MovingMax.Period), kdj.Sma1.Period)[k + kdj.Sma2.Period - 1] && result1[k] == smaS(smaS(stochKS(high, low, closing, kdj.MovingMax.Period), kdj.Sma1.Period), kdj.Sma2.Period)[k] && result2[k] == 3 * smaS(stochKS(high, low, closing, kdj.MovingMax.Period), kdj.Sma1.Period)[k + kdj.Sma2.Period - 1] - 2 * smaS(smaS(stochKS(high, low, closing, kdj.MovingMax.Period), kdj.Sma1.Period), kdj.Sma2.Period)[k]
 
 // Direction = Abs(Close - Close Period Ago), Volatility = MovingSum(Period, Abs(Close - Previous Close)), ER = Direction / Volatility,
 // SC = (ER * (2/(Fast + 1) - 2/(Slow + 1)) + (2/(Slow + 1)))^2, KAMA = Previous KAMA + SC * (Price - Previous KAMA)
@@ -439,15 +439,15 @@ package trend
 //@ loop#0 invariant forall j :: 0 <= j && j < sent(kama) ==> hor(kama, j) <= hor(closings, j + k.ErPeriod)
 //@ loop#0 invariant prevKama == kamaR(closings, scs, k.ErPeriod, sent(kama) - 1)
 //@ loop#0 invariant forall j :: 0 <= j && j < sent(kama) ==> kama[j] == kamaR(closings, scs, k.ErPeriod, j)
-//@ step[C01] "changes" forall i :: 0 <= i && i < len(closings) - 1 ==> res(Abs, 1)[i] == absChS(closings)[i]
+//@ step[C01,C18] "changes" forall i :: 0 <= i && i < len(closings) - 1 ==> res(Abs, 1)[i] == absChS(closings)[i]
 //@ use psum_cong(res(Abs, 1), absChS(closings), _)
-//@ step[C01] "volatility" forall j :: 0 <= j && j < len(volatilitys) ==> volatilitys[j] == winS(absChS(closings), k.ErPeriod)[j]
-//@ step[C01] "efficiency-ratio" forall j :: 0 <= j && j < len(ers) ==> ers[j] == abs(closings[j + k.ErPeriod] - closings[j]) / winS(absChS(closings), k.ErPeriod)[j]
-//@ guarantees[C01] "smoothing-constant" forall j :: 0 <= j && j < len(scs) ==> scs[j] == kamaScS(closings, k.ErPeriod, k.FastScPeriod, k.SlowScPeriod)[j]
+//@ step[C01,C18] "volatility" forall j :: 0 <= j && j < len(volatilitys) ==> volatilitys[j] == winS(absChS(closings), k.ErPeriod)[j]
+//@ step[C01,C18] "efficiency-ratio" forall j :: 0 <= j && j < len(ers) ==> ers[j] == abs(closings[j + k.ErPeriod] - closings[j]) / winS(absChS(closings), k.ErPeriod)[j]
+//@ guarantees[C01,C18] "smoothing-constant" forall j :: 0 <= j && j < len(scs) ==> scs[j] == kamaScS(closings, k.ErPeriod, k.FastScPeriod, k.SlowScPeriod)[j]
 //@ guarantees[C01] "documented" forall kk :: 0 <= kk && kk < len(result) ==> result[kk] == kamaR(closings, scs, k.ErPeriod, kk)
-//@ step[C01] "sc" forall j :: 0 <= j && j < len(scs) ==> scs[j] == kamaScS(closings, k.ErPeriod, k.FastScPeriod, k.SlowScPeriod)[j]
+//@ step[C01,C18] "sc" forall j :: 0 <= j && j < len(scs) ==> scs[j] == kamaScS(closings, k.ErPeriod, k.FastScPeriod, k.SlowScPeriod)[j]
 //@ use kamaR_cong(closings, scs, kamaScS(closings, k.ErPeriod, k.FastScPeriod, k.SlowScPeriod), k.ErPeriod, _)
-//@ ensures[C01] "documented-inputs" forall kk :: 0 <= kk && kk < len(result) ==> result[kk] == kamaR(closings, kamaScS(closings, k.ErPeriod, k.FastScPeriod, k.SlowScPeriod), k.ErPeriod, kk)
+//@ ensures[C01,C18] "documented-inputs" forall kk :: 0 <= kk && kk < len(result) ==> result[kk] == kamaR(closings, kamaScS(closings, k.ErPeriod, k.FastScPeriod, k.SlowScPeriod), k.ErPeriod, kk)
 
 // ---- C18: the documented formulas of package trend scale with the price unit --------------------------------------
 //@ lemma macdS_pscale(c stream, d stream, lam real, P1 int, m1 real, P2 int, m2 real, k int)
